@@ -582,12 +582,11 @@ class MoveModule:
         module_imports = importutils.get_module_imports(self.project, pymodule)
         changed = False
         source = None
-        if libutils.modname(dest):
-            changed = self._change_import_statements(dest, new_name, module_imports)
-            if changed:
-                source = module_imports.get_changed_source()
-                source = self.tools.new_source(pymodule, source)
-                pymodule = self.tools.new_pymodule(pymodule, source)
+        changed = self._change_import_statements(dest, new_name, module_imports)
+        if changed:
+            source = module_imports.get_changed_source()
+            source = self.tools.new_source(pymodule, source)
+            pymodule = self.tools.new_pymodule(pymodule, source)
 
         new_import = self._new_import(dest)
         source = self.tools.rename_in_module(
@@ -668,9 +667,16 @@ class MoveModule:
                 # The moving module was imported.
                 if name == self.old_name:
                     changed = True
-                    new_import = importutils.FromImport(
-                        libutils.modname(dest), 0, [(self.old_name, alias)]
-                    )
+                    dest_name = libutils.modname(dest)
+                    if dest_name:
+                        new_import = importutils.FromImport(
+                            dest_name, 0, [(self.old_name, alias)]
+                        )
+                    else:
+                        # moving to a source folder: the module becomes top-level
+                        new_import = importutils.NormalImport(
+                            [(self.old_name, alias)]
+                        )
                     module_imports.add_import(new_import)
                 else:
                     new_imports.append((name, alias))
